@@ -363,6 +363,13 @@ def _run_conc(sc, tape, b, name, probes):
                         _defrag(w, cache, version, sc['pool'], None, op, 'defrag after concurrent writers', probes)
             except M.Mismatch as m:
                 v = {'sig': 'C19:%s:%s' % (m.kind, name), 'msg': m.msg}
+            except Exception as ex:
+                import traceback
+                if 'mapproxy' in ' '.join(f.filename for f in traceback.extract_tb(ex.__traceback__)[-3:]):
+                    v = {'sig': 'C19:raises:%s:%s' % (type(ex).__name__, name),
+                         'msg': 'after concurrent writers: %r\n%s' % (ex, ''.join(traceback.format_tb(ex.__traceback__)[-3:]))}
+                else:
+                    raise
     probes['overlapping_bundle_writers'] = overlap[0]
     probes.update(w.fs.probes)
     return {'violation': v, 'digest': C.digest_of('conc', sc['version'], sc['procs'], sched.log),
